@@ -156,7 +156,13 @@ def _params(fn):
 def _decorators(fn):
     out = set()
     for d in fn.decorator_list:
-        out.add(d.id if isinstance(d, ast.Name) else (d.attr if isinstance(d, ast.Attribute) else "?"))
+        core = d.func if isinstance(d, ast.Call) else d
+        name = core.id if isinstance(core, ast.Name) else (core.attr if isinstance(core, ast.Attribute) else "?")
+        if name in ("lru_cache", "cache") and not (isinstance(d, ast.Call) and d.args and not isinstance(d.args[0], ast.Constant)):
+            # functools memoisation of a function on *all* its arguments: the call returns what the body returns (the caches the MEMO rules
+            # look for are the hand-written ones; objects shared through such a memo are the business of shared_cached_objects)
+            continue
+        out.add(name if not isinstance(d, ast.Call) else name + "()")
     return out
 
 
